@@ -47,6 +47,12 @@ func SetEdns0(req *dns.Msg, policy *ecs.Policy, client netip.Addr) (*dns.OPT, in
 	cookie := ""
 
 	if opt != nil {
+		// Exactly one OPT travels on (RFC 6891 §6.1.1). IsEdns0 finds the
+		// last one; a request that arrived with several would have only that
+		// one normalised below and the others — client cookie, unclamped
+		// subnet and all — forwarded upstream as they came.
+		req.Extra = dropOtherOPTs(req.Extra, opt)
+
 		size = int(opt.UDPSize())
 		if size < dns.MinMsgSize {
 			size = dns.MinMsgSize
@@ -108,6 +114,28 @@ func SetEdns0(req *dns.Msg, policy *ecs.Policy, client netip.Addr) (*dns.OPT, in
 	}
 
 	return opt, size, cookie, nsid, do
+}
+
+// dropOtherOPTs removes every OPT record except keep, in place.
+func dropOtherOPTs(extra []dns.RR, keep *dns.OPT) []dns.RR {
+	n := 0
+	for _, rr := range extra {
+		if rr.Header().Rrtype == dns.TypeOPT && rr != dns.RR(keep) {
+			continue
+		}
+		n++
+	}
+	if n == len(extra) {
+		return extra
+	}
+	kept := extra[:0]
+	for _, rr := range extra {
+		if rr.Header().Rrtype == dns.TypeOPT && rr != dns.RR(keep) {
+			continue
+		}
+		kept = append(kept, rr)
+	}
+	return kept
 }
 
 // GenerateServerCookie return generated edns server cookie.
